@@ -82,10 +82,41 @@ CHECKS = {
              "whose batch run is not error-free are skipped and counted.",
         design_ref="DESIGN.md section 3, C11",
     ),
+    "C30": dict(
+        engine="threadsim",
+        category="exploration",
+        technique="deterministic simulation of the real nREPL server threads under the seeded shuttle scheduler (random and "
+                  "PCT), simulated timers, fault-injecting bencode transport; oracle over the totally ordered wire log",
+        text="Seeded client workloads x seeded schedules: every spawn, channel operation, join, sleep, timer expiry and "
+             "evaluation step of the real reader/dispatcher, session workers, output flushers, SIGINT watchdog and writer "
+             "is a decision of one seeded scheduler. Oracle over the wire log: exactly one `done` per delivered request id "
+             "and nothing with that id after it; stdout/stderr tokens (self-numbering) arrive complete, in order, before "
+             "the done - for interrupted evals the count is cross-checked against the program's own counter read back by a "
+             "later eval; value/ex before done; per-session done order; cross-session isolation; clean termination.",
+        note="A clean batch is evidence, not proof: schedules are sampled. TcpStream, the accept loop and the two small "
+             "loops of serve_connection/writer_thread are re-enacted, not executed. Timers are modelled as nondeterministic "
+             "expiry. The std Mutex buffers and the AtomicBool flags are not scheduling points (argued sound in DESIGN.md).",
+        design_ref="DESIGN.md section 3, C30",
+    ),
+    "C31": dict(
+        engine="threadsim",
+        category="exploration",
+        technique="deterministic simulation under the seeded shuttle scheduler; executable reference model of the "
+                  "per-session interrupt flag replayed over the total order of flag writes, dequeue-resets and per-step checks",
+        text="Same engine as C30 with an interrupt/close-heavy workload mix. Every flag write (interrupt, close, client "
+             "disconnect, SIGINT broadcast by the watchdog), every worker dequeue+reset and every per-step check is logged "
+             "in one total order with no scheduling point between the log entry and the real access. A small reference model "
+             "of the flag is replayed over that order; each eval must end `interrupted` at exactly the first check after a "
+             "flag write that followed its dequeue, iff there is one - which covers promptness (one step), idle interrupts "
+             "not cancelling the next eval, close stopping the running eval, and no effect on other sessions.",
+        note="The window between dispatch and dequeue is either-way in the property text; the oracle follows the code's "
+             "reading (reset on dequeue wins). Promptness is stated in evaluation steps, not milliseconds.",
+        design_ref="DESIGN.md section 3, C31",
+    ),
 }
 
 PENDING = {p: "claimed in DESIGN.md; its check is not built yet, so nothing is claimed for it in this manifest"
-           for p in ["C24", "C25", "C26", "C28", "C30", "C31"]}
+           for p in ["C24", "C25", "C26", "C28"]}
 
 NOT_APPLICABLE = {
     "C01": "lex/parse/check never crash: a pure function of one source string; no schedule, clock, fault or history to simulate (fuzzing territory)",
